@@ -93,10 +93,18 @@ fn parse_square(s: &str) -> Option<Sq> {
 /// accepting or rejecting such non-canonical spellings is both allowed, the denoted value is not)
 fn parse_number(s: &str) -> Option<u64> {
     let d = s.strip_prefix('+').unwrap_or(s);
-    if d.is_empty() || d.len() > 18 || !d.bytes().all(|b| b.is_ascii_digit()) {
+    if d.is_empty() || !d.bytes().all(|b| b.is_ascii_digit()) {
         return None;
     }
-    d.parse().ok()
+    // any number of leading zeros; a number too large for u64 is still a number (out of every range)
+    let sig = d.trim_start_matches('0');
+    if sig.is_empty() {
+        return Some(0);
+    }
+    if sig.len() > 18 {
+        return Some(u64::MAX);
+    }
+    sig.parse().ok()
 }
 
 pub fn decode_placement(field: &str) -> Option<[Option<(Kind, Col)>; 64]> {
